@@ -6,6 +6,7 @@ package main
 
 import (
 	"fmt"
+	"os"
 	"go/ast"
 	"go/token"
 	"go/types"
@@ -70,6 +71,17 @@ type State struct {
 	trace  []string
 	events []Event
 	entry  *Snapshot
+	frames []*frame
+	pcSet  map[string]bool
+	atServe map[string]Term // heaps right before the first ServeHTTP event
+}
+
+// frame: an inlined (transparent) callee being executed.
+type frame struct {
+	call    *ssa.Call
+	names   map[string]Val
+	fn      *ssa.Function
+	collect *[]*State
 }
 
 type Snapshot struct {
@@ -104,15 +116,45 @@ func (s *State) clone() *State {
 		n.lallocs[k] = v
 	}
 	n.pc = append([]Term(nil), s.pc...)
+	n.pcSet = nil
 	n.trace = append([]string(nil), s.trace...)
 	n.events = append([]Event(nil), s.events...)
+	n.frames = append([]*frame(nil), s.frames...)
 	return &n
+}
+
+func (s *State) knows(t Term) bool {
+	if t.S == "true" {
+		return true
+	}
+	if s.pcSet == nil {
+		s.pcSet = map[string]bool{}
+		for _, p := range s.pc {
+			s.pcSet[p.S] = true
+		}
+	}
+	return s.pcSet[t.S]
+}
+
+// knowsNeq: the path condition contains the disequality a != b.
+func (s *State) knowsNeq(a, b string) bool {
+	return s.knows(Term{"(not (= " + a + " " + b + "))", SBool}) || s.knows(Term{"(not (= " + b + " " + a + "))", SBool})
 }
 
 func (s *State) assume(t Term) {
 	if t.S == "true" || t.S == "" {
 		return
 	}
+	if s.pcSet == nil {
+		s.pcSet = map[string]bool{}
+		for _, p := range s.pc {
+			s.pcSet[p.S] = true
+		}
+	}
+	if s.pcSet[t.S] {
+		return
+	}
+	s.pcSet[t.S] = true
 	s.pc = append(s.pc, t)
 }
 
@@ -137,6 +179,30 @@ type Exec struct {
 	instDone map[string]bool
 	recDepth map[string]int
 	lemmaText map[string]string
+	shared   map[string]string // body -> name of the shared definition
+}
+
+// share names a large term so that it is not textually duplicated by the
+// constructions that mention it several times (terms are trees, not DAGs).
+func (x *Exec) share(t Term) Term {
+	if len(t.S) < 120 || t.Sort == "" || t.Sort == "Nil" || t.Sort == "Any" {
+		return t
+	}
+	if strings.Contains(t.S, "q!") || strings.Contains(t.S, "a!") || strings.Contains(t.S, "k!s") || strings.Contains(t.S, "k!q") {
+		return t // mentions a bound variable: cannot be lifted to a top-level definition
+	}
+	if x.shared == nil {
+		x.shared = map[string]string{}
+	}
+	if n, ok := x.shared[t.S]; ok {
+		return Term{n, t.Sort}
+	}
+	x.nfresh++
+	n := fmt.Sprintf("d!%d", x.nfresh)
+	x.decls[n] = fmt.Sprintf("(declare-const %s %s)", n, t.Sort)
+	x.axioms[n] = []string{fmt.Sprintf("(= %s %s)", n, t.S)}
+	x.shared[t.S] = n
+	return Term{n, t.Sort}
 }
 
 type unsupported struct{ msg string }
@@ -209,6 +275,7 @@ func (x *Exec) heap(st *State, name string, elem Sort) Term {
 	n := "H0!" + name
 	x.declare(n, hs)
 	h := Term{sym(n), hs}
+	x.oldHeapAxioms(sym(n), name, elem)
 	st.heaps[name] = h
 	if st.entry != nil {
 		if _, ok := st.entry.heaps[name]; !ok {
@@ -232,13 +299,35 @@ func distinctSyn(a, b string) bool {
 	if ka == "lit" && kb == "lit" {
 		return true
 	}
-	if ka == "alloc" && (kb == "alloc" || kb == "param" || kb == "int" || kb == "glob") {
+	if ka == "alloc" && (kb == "alloc" || kb == "param" || kb == "int" || kb == "glob" || kb == "old") {
 		return true
 	}
-	if kb == "alloc" && (ka == "param" || ka == "int" || ka == "glob") {
+	if kb == "alloc" && (ka == "param" || ka == "int" || ka == "glob" || ka == "old") {
 		return true
 	}
 	return false
+}
+
+// entryPure reports whether a term is built only from parameters, entry-state
+// heaps, globals, literals and pure functions of those: its value existed
+// when the function was entered, so as an address it differs from every
+// object allocated during the call.
+func entryPure(s string) bool {
+	tk := map[string]bool{}
+	tokensOf(s, tk)
+	for t := range tk {
+		t = strings.Trim(t, "|")
+		switch {
+		case strings.HasPrefix(t, "p!"), strings.HasPrefix(t, "H0!"), strings.HasPrefix(t, "gval!"), strings.HasPrefix(t, "gaddr!"),
+			strings.HasPrefix(t, "lit!"), strings.HasPrefix(t, "sub!"), strings.HasPrefix(t, "elem!"), strings.HasPrefix(t, "f_"),
+			t == "whdr", t == "select", t == "sarr", t == "sloff", t == "sllen", t == "slcap", t == "iptr", t == "ityp", t == "+", t == "-":
+		default:
+			if _, ok := intLit(Term{t, SInt}); !ok {
+				return false
+			}
+		}
+	}
+	return true
 }
 
 func symClass(s string) string {
@@ -255,11 +344,55 @@ func symClass(s string) string {
 	if _, ok := intLit(Term{s, SInt}); ok {
 		return "int"
 	}
+	if strings.HasPrefix(s, "(") && entryPure(s) {
+		return "old"
+	}
 	return ""
 }
 
+// oldHeapAxioms: every address stored in an entry-state heap is older than
+// any object allocated during the call (brk! separates the two).
+func (x *Exec) oldHeapAxioms(sy, name string, elem Sort) {
+	if len(x.axioms[sy]) > 0 {
+		return
+	}
+	x.declare("brk!", SInt)
+	switch {
+	case name == "MV!":
+		x.axioms[sy] = []string{fmt.Sprintf("(forall ((m!s Int) (k!s Str)) (! (< (sarr (select (select %s m!s) k!s)) brk!) :pattern ((select (select %s m!s) k!s))))", sy, sy)}
+	case strings.HasPrefix(name, "E!") && elem == SSlice:
+		x.axioms[sy] = []string{fmt.Sprintf("(forall ((m!s Int) (i!s Int)) (! (< (sarr (select (select %s m!s) i!s)) brk!) :pattern ((select (select %s m!s) i!s))))", sy, sy)}
+	case (strings.HasPrefix(name, "F!") || strings.HasPrefix(name, "C!")) && elem == SSlice:
+		x.axioms[sy] = []string{fmt.Sprintf("(forall ((a!s Int)) (! (< (sarr (select %s a!s)) brk!) :pattern ((select %s a!s))))", sy, sy)}
+	case strings.HasPrefix(name, "F!") && elem == SInt && x.fieldIsPointer(name):
+		x.axioms[sy] = []string{fmt.Sprintf("(forall ((a!s Int)) (! (< (select %s a!s) brk!) :pattern ((select %s a!s))))", sy, sy)}
+	}
+}
+
+func (x *Exec) fieldIsPointer(heap string) bool {
+	parts := strings.SplitN(heap[2:], "!", 2)
+	if len(parts) != 2 {
+		return false
+	}
+	for _, si := range x.P.structInfo {
+		if si.Named == parts[0] {
+			for _, f := range si.Fields {
+				if cleanName(f.Name) == parts[1] {
+					switch f.Ty.Underlying().(type) {
+					case *types.Pointer, *types.Map:
+						return true
+					}
+				}
+			}
+		}
+	}
+	return false
+}
+
 // readArr reads arr[key] peeling syntactic stores.
-func readArr(arr Term, key Term, elem Sort) Term {
+func readArr(arr Term, key Term, elem Sort) Term { return readArrSt(nil, arr, key, elem) }
+
+func readArrSt(st *State, arr Term, key Term, elem Sort) Term {
 	h := arr
 	for {
 		args, ok := splitApp(h.S, "store")
@@ -269,7 +402,7 @@ func readArr(arr Term, key Term, elem Sort) Term {
 		if args[1] == key.S {
 			return Term{args[2], elem}
 		}
-		if distinctSyn(args[1], key.S) {
+		if distinctSyn(args[1], key.S) || (st != nil && st.knowsNeq(args[1], key.S)) {
 			h = Term{args[0], arr.Sort}
 			continue
 		}
@@ -290,10 +423,10 @@ func (x *Exec) readLoc(st *State, l *Loc) Term {
 	h := x.heap(st, l.Heap, l.Sort)
 	switch l.Kind {
 	case "elem":
-		inner := readArr(h, l.Addr, Sort(fmt.Sprintf("(Array Int %s)", l.Sort)))
-		return readArr(inner, l.Idx, l.Sort)
+		inner := readArrSt(st, h, l.Addr, Sort(fmt.Sprintf("(Array Int %s)", l.Sort)))
+		return readArrSt(st, inner, l.Idx, l.Sort)
 	default:
-		return readArr(h, l.Addr, l.Sort)
+		return readArrSt(st, h, l.Addr, l.Sort)
 	}
 }
 
@@ -315,11 +448,18 @@ func fieldHeap(si *StructI, i int) string {
 
 func (x *Exec) subAddr(si *StructI, i int, addr Term) Term {
 	f := x.declareFun(fmt.Sprintf("sub!%s!%s", si.Named, cleanName(si.Fields[i].Name)), []Sort{SInt}, SInt)
+	if len(x.axioms[f]) == 0 {
+		// the address of an embedded struct is non-nil iff the enclosing object's is
+		x.axioms[f] = []string{fmt.Sprintf("(forall ((a!s Int)) (! (=> (not (= a!s 0)) (not (= (%s a!s) 0))) :pattern ((%s a!s))))", f, f)}
+	}
 	return App(f, SInt, addr)
 }
 
 func (x *Exec) elemAddr(key string, arr, idx Term) Term {
 	f := x.declareFun("elem!"+key, []Sort{SInt, SInt}, SInt)
+	if len(x.axioms[f]) == 0 {
+		x.axioms[f] = []string{fmt.Sprintf("(forall ((a!s Int) (i!s Int)) (! (not (= (%s a!s i!s) 0)) :pattern ((%s a!s i!s))))", f, f)}
+	}
 	return App(f, SInt, arr, idx)
 }
 
@@ -541,15 +681,30 @@ func (x *Exec) Run() (err error) {
 		st.entry.names[name] = val
 		st.assume(x.wf(val.T, t))
 		x.params = append(x.params, NamedVal{name, val})
-		if _, ok := t.Underlying().(*types.Pointer); ok {
+		x.declare("brk!", SInt)
+		switch t.Underlying().(type) {
+		case *types.Pointer, *types.Map:
 			ptrs = append(ptrs, val.T)
+			st.assume(Lt(val.T, Term{"brk!", SInt}))
+		case *types.Slice:
+			st.assume(Lt(SlArr(val.T), Term{"brk!", SInt}))
 		}
 	}
 	for _, p := range fn.Params {
 		bind(p.Name(), p)
 	}
 	for _, fv := range fn.FreeVars {
-		bind(fv.Name(), fv)
+		// a captured variable is a pointer to its cell; in contracts its name
+		// denotes the variable's value at entry
+		bind("&"+fv.Name(), fv)
+		st.assume(Ne(st.vals[fv].T, Int(0))) // the cell of a captured variable always exists
+		if pt, ok := fv.Type().Underlying().(*types.Pointer); ok {
+			v := x.derefVal(st, st.vals[fv], fv.Type())
+			v.Ty = pt.Elem()
+			st.assume(x.wf(v.T, v.Ty))
+			st.names[fv.Name()] = v
+			st.entry.names[fv.Name()] = v
+		}
 	}
 	// requires
 	for _, r := range x.c.Requires {
@@ -575,6 +730,9 @@ func (x *Exec) addVC(st *State, kind, name, prop string, pos token.Pos, goal Ter
 	}
 	if kind == "safety" && (x.noSafety || x.c.NoSafety) {
 		return
+	}
+	if kind == "safety" && prop == "" {
+		prop = "C17" // "no input can crash ...": a failed safety obligation is a C17 violation
 	}
 	full := x.fname + "/" + name
 	if x.relTag != "" {
@@ -805,6 +963,12 @@ func (x *Exec) step(st *State, in ssa.Instruction) bool {
 	case *ssa.If:
 		c := x.val(st, in.Cond).T
 		b := in.Block()
+		// prune branches that contradict a fact already on the path
+		if st.knows(c) {
+			c = True
+		} else if st.knows(Not(c)) {
+			c = False
+		}
 		if c.S != "false" {
 			s1 := st.clone()
 			s1.assume(c)
@@ -840,8 +1004,7 @@ func (x *Exec) step(st *State, in ssa.Instruction) bool {
 	case *ssa.Go, *ssa.Defer, *ssa.Send, *ssa.Select:
 		x.unsup(in.Pos(), "%T is outside the subset", in)
 	case ssa.Value:
-		x.stepValue(st, in)
-		return true
+		return x.stepValue(st, in)
 	}
 	x.unsup(in.Pos(), "unhandled instruction %T", in)
 	return false
@@ -932,10 +1095,10 @@ func (x *Exec) mapKey(st *State, k Val, pos token.Pos) Term {
 func (x *Exec) mapRead(st *State, m Term, k Term) (val, present Term) {
 	mp := x.heap(st, "MP!", SBool)
 	mv := x.heap(st, "MV!", SSlice)
-	pin := readArr(mp, m, "(Array Str Bool)")
-	vin := readArr(mv, m, "(Array Str Slice)")
-	present = readArr(pin, k, SBool)
-	val = readArr(vin, k, SSlice)
+	pin := readArrSt(st, mp, m, "(Array Str Bool)")
+	vin := readArrSt(st, mv, m, "(Array Str Slice)")
+	present = x.share(readArrSt(st, pin, k, SBool))
+	val = x.share(readArrSt(st, vin, k, SSlice))
 	return
 }
 
@@ -955,7 +1118,36 @@ func (x *Exec) doMapUpdate(st *State, in *ssa.MapUpdate) {
 }
 
 func (x *Exec) doReturn(st *State, in *ssa.Return) {
+	if n := len(st.frames); n > 0 {
+		// return from an inlined callee: bind the call's value, continue the caller
+		fr := st.frames[n-1]
+		st.frames = st.frames[:n-1]
+		var rv Val
+		switch len(in.Results) {
+		case 0:
+			rv = Val{Ty: fr.call.Type()}
+		case 1:
+			rv = x.val(st, in.Results[0])
+		default:
+			rv = Val{Ty: fr.call.Type()}
+			for _, r := range in.Results {
+				rv.Tup = append(rv.Tup, x.val(st, r))
+			}
+		}
+		st.names = fr.names
+		x.setVal(st, fr.call, rv)
+		st.prev = nil
+		if fr.collect != nil {
+			*fr.collect = append(*fr.collect, st)
+			return
+		}
+		x.continueAfter(st, fr.call)
+		return
+	}
 	x.paths++
+	if os.Getenv("GOVC_DEBUG") != "" && x.paths%50 == 0 {
+		fmt.Fprintf(os.Stderr, "paths=%d vcs=%d trace=%d\n", x.paths, len(x.vcs), len(st.trace))
+	}
 	var results []Val
 	for _, r := range in.Results {
 		results = append(results, x.val(st, r))
